@@ -24,10 +24,10 @@
         run are in non-decreasing (height, round) order - a lock taken in round r is never followed
         by a vote of an earlier round;
     L7  a commit is emitted only with the block's complete part set (C08.X10);
-    L8  L1 lifted to the history (Lemmas/NodeJust.lean): every own precommit for a block that is in
-        the node's queue - every vote the node signs passes through it - names a block for which
-        the node's prevote set of that round reports +2/3, in every state of every run from a fresh
-        node, for every vote set content peers can produce - for every run whose timeouts are
+    L8  L1 lifted to the history (Lemmas/NodeJust.lean): `signed` is the list of all votes the node
+        has ever signed (a ghost field, appended by `signAddVote`, read by nothing); every precommit
+        for a block in it, signed at the node's current height, names a block for which the node's
+        prevote set of that round reports +2/3, in every state of every run from a fresh node, for every vote set content peers can produce - for every run whose timeouts are
         ones the node scheduled (`Scheduled`: the ticker relays nothing else). That such a run
         never fires a timeout for a round the node has not entered is itself proved
         (Lemmas/NodeSched.lean: every scheduled timeout is for a round the node has entered).
@@ -286,8 +286,8 @@ example : Le (Node.init repaired 1 v4 (some 1) false) demo ∧ demo.step = .prec
     block that has +2/3 prevotes in the node's prevote set of the vote's round -/
 theorem run_no_precommit_without_polka (cfg : Cfg) (height : Int) (vals : ValSet.ValSet) (me : Option Nat)
     (skip : Bool) (ins : List In) (hok : RunOK (Node.init cfg height vals me skip) ins)
-    (v : VoteSet.Vote) (ok : Bool)
-    (hq : Msg.vote v ok ∈ (ins.foldl stepIn (Node.init cfg height vals me skip)).queue)
+    (v : VoteSet.Vote)
+    (hq : v ∈ (ins.foldl stepIn (Node.init cfg height vals me skip)).signed)
     (ht : v.type = 2) (hh : v.height = (ins.foldl stepIn (Node.init cfg height vals me skip)).height)
     (hb : v.bid.hash.isEmpty = false) :
     maj23 (prevotes (ins.foldl stepIn (Node.init cfg height vals me skip)) v.round) = some v.bid :=
@@ -296,13 +296,13 @@ theorem run_no_precommit_without_polka (cfg : Cfg) (height : Int) (vals : ValSet
 /-- L8 for the runs that happen: every timeout that fires is one the node scheduled -/
 theorem run_no_precommit_without_polka_scheduled (cfg : Cfg) (height : Int) (vals : ValSet.ValSet) (me : Option Nat)
     (skip : Bool) (ins : List In) (hs : Scheduled (Node.init cfg height vals me skip) ins)
-    (v : VoteSet.Vote) (ok : Bool)
-    (hq : Msg.vote v ok ∈ (ins.foldl stepIn (Node.init cfg height vals me skip)).queue)
+    (v : VoteSet.Vote)
+    (hq : v ∈ (ins.foldl stepIn (Node.init cfg height vals me skip)).signed)
     (ht : v.type = 2) (hh : v.height = (ins.foldl stepIn (Node.init cfg height vals me skip)).height)
     (hb : v.bid.hash.isEmpty = false) :
     maj23 (prevotes (ins.foldl stepIn (Node.init cfg height vals me skip)) v.round) = some v.bid :=
   run_no_precommit_without_polka cfg height vals me skip ins
-    (runOK_of_scheduled ins _ (init_sched cfg height vals me skip) hs) v ok hq ht hh hb
+    (runOK_of_scheduled ins _ (init_sched cfg height vals me skip) hs) v hq ht hh hb
 
 /-- every timeout a node has scheduled, in any run, is for a round it has entered -/
 theorem scheduled_timeouts_not_ahead (cfg : Cfg) (height : Int) (vals : ValSet.ValSet) (me : Option Nat)
@@ -315,9 +315,10 @@ theorem scheduled_timeouts_not_ahead (cfg : Cfg) (height : Int) (vals : ValSet.V
 theorem step_keeps_precommits_justified (n : Node) (i : In) (q : QJ n) (hw : WellTimed n i) : QJ (stepIn n i) :=
   qj_stepIn n i q hw
 
-/-- non-vacuity: in `demo` the own precommit for "b" sits in the queue... after the drain it has
-    been handled; one step earlier it is there, and the polka is in the prevote set -/
-example : maj23 (prevotes demo 0) = some (bidOf [0x62]) := by decide
+/-- non-vacuity: `demo` has signed a prevote and a precommit for "b", and the polka is in its
+    prevote set of round 0 -/
+example : demo.signed.map (fun v => (v.type, v.round, v.bid.hash)) = [(1, 0, [0x62]), (2, 0, [0x62])] ∧
+    maj23 (prevotes demo 0) = some (bidOf [0x62]) := by decide
 
 /-! ### L9: proof of lock, over every run -/
 
